@@ -181,19 +181,21 @@ func (w *world) getWriter(key string) ociregistry.BlobWriter {
 	return w.writers[key]
 }
 
+// Sessions are identified by repository and session name (the same name may be in use in two
+// repositories at once); key is "<repo>|<name>".
 func (w *world) setWriter(key, u, id string, bw ociregistry.BlobWriter) {
 	w.mu.Lock()
 	defer w.mu.Unlock()
 	if bw != nil {
 		w.writers[key] = bw
 	}
-	w.ids[u] = id
+	w.ids[key] = id
 }
 
-func (w *world) idOf(u string) (string, bool) {
+func (w *world) idOf(key string) (string, bool) {
 	w.mu.Lock()
 	defer w.mu.Unlock()
-	id, ok := w.ids[u]
+	id, ok := w.ids[key]
 	return id, ok
 }
 
@@ -257,7 +259,7 @@ func (w *world) exec(ctx context.Context, op Op) (e ev) {
 			e["chunksize"] = bw.ChunkSize()
 		}
 	case "Resume":
-		id, ok := w.idOf(op.U)
+		id, ok := w.idOf(op.R + "|" + op.U)
 		if !ok {
 			if w.noFreshIDs {
 				// a session id only means something to the layer that issued it
